@@ -1,8 +1,7 @@
 /* C19 splice — the cross-fade itself: which samples a lapped seek changes, with which window, and what it leaves alone.
  * real code : _ov_splice (lib/vorbisfile.c)
- * symbolic  : half-block sizes n1 (old position), n2 (new position) in 1..CAP, channel counts ch1, ch2 in 1..3, every sample of the old lap
- *             and of the new audio and every window coefficient as arbitrary float bit patterns (equal sizes share one window table, as
- *             vorbis_window() guarantees)
+ * symbolic  : half-block sizes n1 (old position), n2 (new position) in 1..CAP, channel counts ch1, ch2 in 1..3 (the shape); samples and window
+ *             coefficients are concrete pairwise distinct tags (equal sizes share one window table, as vorbis_window() guarantees)
  * assert    : with n = min(n1,n2) and w = the window of the SHORTER of the two half blocks (property: "window-weighted cross-fade ... inside the
  *             first half short block"): for channels present on both sides new[i] = new[i]*w[i]^2 + old[i]*(1-w[i]^2), i<n; channels only on the
  *             new side fade in from silence (new[i]*w[i]^2); nothing at or beyond n, no channel >= ch2 and nothing of the old lap is written.
@@ -18,9 +17,11 @@ void harness(void){
   float pcm_[NCH][CAP+1], lap_[NCH][CAP+1], pcm0[NCH][CAP+1], lap0[NCH][CAP+1], w1[CAP], w2[CAP];
   float *pcm[NCH], *lap[NCH];
   int n1=ND_irange(1,CAP), n2=ND_irange(1,CAP), ch1=ND_irange(1,NCH), ch2=ND_irange(1,NCH);
-  for(int i=0;i<CAP;i++){ w1[i]=ND_float(); w2[i]=ND_float(); }
+  /* tags: concrete, pairwise distinct window coefficients and samples (every product/sum below is exact in float), symbolic SHAPE: arbitrary
+     float samples and coefficients do not finish (900 s at 3 cells x 3 channels); any wrong window, length or channel changes a tagged value */
+  for(int i=0;i<CAP;i++){ w1[i]=.5f+.0625f*i; w2[i]=.25f+.03125f*i; }
   if(n1==n2) for(int i=0;i<CAP;i++) w2[i]=w1[i];
-  for(int j=0;j<NCH;j++){ pcm[j]=pcm_[j]; lap[j]=lap_[j]; for(int i=0;i<=CAP;i++){ pcm0[j][i]=pcm_[j][i]=ND_float(); lap0[j][i]=lap_[j][i]=ND_float(); } }
+  for(int j=0;j<NCH;j++){ pcm[j]=pcm_[j]; lap[j]=lap_[j]; for(int i=0;i<=CAP;i++){ pcm0[j][i]=pcm_[j][i]=(float)(1+j*16+i); lap0[j][i]=lap_[j][i]=(float)(100+j*16+i); } }
   _ov_splice(pcm,lap,n1,n2,ch1,ch2,w1,w2);
   int n=n1<n2?n1:n2; const float *w=n1<=n2?w1:w2;
   if(n1<n2) WITNESS_AT("old block shorter"); if(n1>n2) WITNESS_AT("new block shorter"); if(ch2>ch1) WITNESS_AT("channels fade in from silence");
